@@ -1,6 +1,7 @@
 package main
 
 import (
+	"os"
 	"fmt"
 	"regexp"
 	"go/ast"
@@ -352,6 +353,30 @@ func (f *frame) resolveName(name string) (SV, bool) {
 		}
 	}
 	if len(vals) > 1 {
+		// an if/else assignment: the merged variable is the one phi among the definitions
+		// whose inputs are the other definitions (or constants)
+		var phis []*ssa.Phi
+		for _, v := range vals {
+			if ph, ok := v.(*ssa.Phi); ok {
+				phis = append(phis, ph)
+			}
+		}
+		if len(phis) == 1 {
+			okAll := true
+			for _, ed := range phis[0].Edges {
+				if _, isConst := ed.(*ssa.Const); isConst {
+					continue
+				}
+				if !seen[ed] {
+					okAll = false
+				}
+			}
+			if sv, ok := f.vals[phis[0]]; ok && okAll {
+				return sv, true
+			}
+		}
+	}
+	if len(vals) > 1 {
 		// several definitions: if exactly one is a phi that has been encoded and dominates, ambiguous
 		cfail("name %q is ambiguous in %s (%d definitions); use a loop phi or parameter", name, f.fn.Name(), len(vals))
 	}
@@ -502,6 +527,22 @@ func (f *frame) postconditions() {
 			}
 			if cs.Negative {
 				flag = not(flag)
+			}
+			if cs.WhenRet != "" {
+				// condition over the results of this return (and the state at return)
+				extra := map[string]SV{}
+				var res SV
+				if len(r.vals) == 1 {
+					res = r.vals[0]
+				} else if len(r.vals) > 1 {
+					res = SV{tuple: r.vals}
+				}
+				bindResults(extra, f.fn, res)
+				save := f.curPC
+				f.curPC = r.pc
+				wr := f.evalContractMode(&Clause{Kind: "calls", Text: cs.WhenRet, Func: fc.Key, File: cs.Clause.File, Line: cs.Clause.Line}, r.heap, extra, nil, "assume")
+				f.curPC = save
+				flag = implies(wr, flag)
 			}
 			conj = append(conj, implies(r.pc, flag))
 		}
@@ -696,6 +737,13 @@ func (f *frame) frameObligation() {
 	w := map[string]bool{}
 	for _, b := range f.fn.Blocks {
 		for _, in := range b.Instrs {
+			if os.Getenv("GOWP_DEBUG") != "" {
+				w1 := map[string]bool{}
+				f.enc.E.instrWrites(nil, in, w1)
+				if w1["*"] || w1["*dyn"] {
+					fmt.Fprintf(os.Stderr, "DEBUG frame: %s writes %v\n", in.String(), w1)
+				}
+			}
 			f.enc.E.instrWrites(nil, in, w)
 		}
 	}
